@@ -2319,6 +2319,25 @@ func (m *Model) ruleWAITLOCK(r *Results) {
 	if n == 0 {
 		r.info(rule, "instances", "-", "no blocking receive on a channel field that the package closes")
 	}
+	// Waiting for a database connection is waiting too: the per-collection mutex (it guards the
+	// view cache) is never held across a statement. A transaction holds the bucket mutex and the
+	// connection and may want that mutex; a reader that holds the mutex and wants the connection -
+	// the only one of an in-memory bucket - completes the cycle.
+	ns := 0
+	for _, st := range m.Sites {
+		if st.IsSchema || st.Call == nil {
+			continue
+		}
+		for l := range m.heldAt(st.Call) {
+			if l.Role == "collection-mutex" {
+				ns++
+				r.bad(rule, m.declName(st.Fn)+" / no statement under the collection mutex", m.instrPos(st.Call), "a statement is issued while %s is held: the caller waits for a connection with the mutex held, and a transaction that owns the connection (and the bucket mutex) and wants this mutex never gets it - on an in-memory bucket every call on every handle, Close included, then blocks for ever", l)
+			}
+		}
+	}
+	if ns == 0 {
+		r.ok(rule, "no statement under the collection mutex", "-", "no SQL statement is issued while a collection mutex is held (%d sites)", len(m.Sites))
+	}
 }
 
 // ---------------------------------------------------------------- R-WRITE-PATH
@@ -2430,6 +2449,48 @@ func (m *Model) ruleWRITEPATH(r *Results) {
 				continue
 			}
 			bad = m.instrPos(ret)
+		}
+		// ... nor is an error that was found turned into success without the write: an explicit
+		// nil error returned on a path that only error edges lead to, and that reached no writer
+		if bad == "" {
+			cw := newCut()
+			for _, b := range writerBlocks {
+				cw.cutBlock(b)
+			}
+			reachW := entryReach(fn, cw)
+			for _, ret := range returnsOf(fn) {
+				if reach[ret.Block().Index] || !reachW[ret.Block().Index] {
+					continue
+				}
+				ev := ret.Results[len(ret.Results)-1]
+				// (a named result spilled into a cell: what this return stored there)
+				if ld, ok := ev.(*ssa.UnOp); ok && ld.Op == token.MUL {
+					if al, ok := ld.X.(*ssa.Alloc); ok {
+						instrs := ret.Block().Instrs
+						for i := len(instrs) - 1; i >= 0; i-- {
+							if st, ok := instrs[i].(*ssa.Store); ok && st.Addr == ssa.Value(al) {
+								ev = st.Val
+								break
+							}
+						}
+					}
+				}
+				if k, ok := ev.(*ssa.Const); !ok || k.Value != nil {
+					continue
+				}
+				cancelled := false
+				for _, ct := range controllingConds(fn, ret.Block()) {
+					cd := condOf(ct.If)
+					for _, o := range []ssa.Value{cd.X, cd.Y} {
+						if o != nil && m.fromCallbackResult(o, fn, 0, map[ssa.Value]bool{}) {
+							cancelled = true
+						}
+					}
+				}
+				if !cancelled {
+					bad = m.instrPos(ret)
+				}
+			}
 		}
 		key := m.declName(fn) + " / success only after the write"
 		r.check(bad == "", rule, key, m.pos(fn.Pos()), "every return that can report success is reached only through the document writer", "the return at "+bad+" can report success on a path that never reaches the document writer: the call is acknowledged although nothing was stored (reads do not see it, no event is delivered)")
